@@ -1162,6 +1162,10 @@ def uname_stream(ctx):
     cases = [(n, i, c) for n in ["x", "x1", "col1", "i_obj", "agg_7", ""] for i in [0, 1, 9, 10, 11, 99, 100, 12345] for c in (False, True)]
     got = []
     keep = cvars.unique_var_index
+    if not isinstance(keep, int) or isinstance(keep, bool):
+        # the model's counter is one natural number; the code's is something else now: the tie is broken (search decides)
+        ctx.disagreement("unique_name-counter-is-one-int", {"counter": type(keep).__name__}, "int", repr(keep)[:200])
+        return
     for n, i, c in cases:
         cvars.unique_var_index = i
         got.append(cvars.unique_name(n, is_class_var=c))
@@ -1261,11 +1265,24 @@ def shrink(ctx, case, info):
     return case, info
 
 
+def counter_family() -> List[Dict[str, Any]]:
+    cases = []
+    for base in ("jet_pt", "x"):
+        for k in range(0, 13):
+            hist = [{"op": "new", "b": "atlas"}] + [{"op": "tr", "e": 0, "q": f"Select(DS, lambda e: {{'{base}': 1}})", "md": []} for _ in range(k)]
+            probe = {"b": "atlas", "on": None, "x": {}, "q": f"Select(DS, lambda e: {{'{base}': 1, 'c2': 2, '{base}1': 3}})", "md": []}
+            cases.append({"history": hist, "probe": probe, "witness": ""})
+    return cases
+
+
 def search(ctx, broken):
     """A larger sweep with the property (fresh interpreter vs after a benign history) as the only judge."""
     known = set(ctx._known)
-    for _ in range(4):
-        cases = [gen_case(ctx.rng, "thorough") for _ in range(160)]
+    for rnd in range(5):
+        # first a directed family derived from WHAT the name-counter tie says: k earlier uses of a column label, then a probe
+        # that books that label next to the label extended by a digit (label first, so that the code as it stands — one
+        # global counter — cannot make the two storage names coincide); then the random sweeps
+        cases = counter_family() if rnd == 0 else [gen_case(ctx.rng, "thorough") for _ in range(160)]
         before = len(ctx.violations)
         res = evaluate(ctx, cases, "search", follow_impl=False)
         for c, v in res:
